@@ -201,6 +201,32 @@ func heapRoles() []heapRole {
 			return seq(one(decl(a, k.mk(1))), one(mkLoop("b", a, &Break{})), one(mkLoop("c", a, &Continue{})), one(mkLoop("bt", k.mk(2), &Break{})),
 				pr(&Call{F: f, Args: []Expr{a}}), pr(&Call{F: g}), k.digest(a)), []*Func{f, g}
 		}},
+		{"temporary-in-loop-header", func(p string, k heapKind) ([]Stmt, []*Func) {
+			// a heap temporary is created while evaluating the bound of a counting loop / the condition of a
+			// while loop / the count of a repeat loop; the loop is left normally, by break and by continue
+			a := v(p, "a", k.t)
+			cnt := func(e Expr) Expr { // a small Zahl that depends on a fresh temporary of the kind
+				return &Bin{Op: "plus", L: &Bin{Op: "mal", L: &Cast{X: eq(e, a), T: Zahl}, R: zl(0), T: Zahl}, R: zl(3), T: Zahl}
+			}
+			var out []Stmt
+			out = append(out, decl(a, k.mk(1)))
+			for ti, exit := range []Stmt{nil, &Break{}, &Continue{}} {
+				i := v(p, fmt.Sprintf("i%d", ti), Zahl)
+				body := pr(i)
+				if exit != nil {
+					body = seq(one(&If{Cond: eq(i, zl(2)), Then: one(exit)}), body)
+				}
+				out = append(out, &For{Var: i.Name, T: Zahl, From: zl(1), To: cnt(k.mk(2)), Body: body})
+				w := v(p, fmt.Sprintf("w%d", ti), Zahl)
+				wbody := seq(one(&Compound{Op: "erhoehe", Target: w, Val: zl(1)}), pr(w))
+				if exit != nil {
+					wbody = seq(one(&Compound{Op: "erhoehe", Target: w, Val: zl(1)}), one(&If{Cond: eq(w, zl(2)), Then: one(exit)}), pr(w))
+				}
+				out = append(out, decl(w, zl(0)), &While{Cond: &Bin{Op: "kleiner", L: w, R: cnt(k.mk(3)), T: Bool}, Body: wbody})
+				out = append(out, &Repeat{N: cnt(k.mk(4)), Body: one(prs("r\n"))})
+			}
+			return seq(out, k.digest(a)), nil
+		}},
 		{"concat-operands", func(p string, k heapKind) ([]Stmt, []*Func) {
 			if k.t.K != KList && k.t.K != KText {
 				return nil, nil
